@@ -7,9 +7,9 @@ import (
 
 // Diff is one disagreement between the real store and the expectation computed by TLC.
 type Diff struct {
-	Step  int    `json:"step"`            // index of the operation in the history
-	What  string `json:"what"`            // "op" or "obs:<how>:<via>"
-	Path  string `json:"path,omitempty"`  // bucket concerned (observations)
+	Step  int    `json:"step"`           // index of the operation in the history
+	What  string `json:"what"`           // "op" or "obs:<how>:<via>"
+	Path  string `json:"path,omitempty"` // bucket concerned (observations)
 	Want  string `json:"want"`
 	Got   string `json:"got"`
 	Known string `json:"known,omitempty"` // id of the known finding whose pattern (stated in spec/KVStoreTrace.tla) this diff matches
